@@ -120,6 +120,7 @@ impl ZbsDiff {
         // Parse header
         let header = ZbsdiffHeader::read_options(&mut cursor, binrw::Endian::Little, ())?;
         header.validate()?;
+        header.check_patch_len(data.len())?;
 
         // Read compressed blocks based on header sizes
         let mut control_data = vec![0u8; header.control_size as usize];
